@@ -212,6 +212,7 @@ func runC06(a *A) {
 	a.Rule("ownmap/shared-state", 5, func() { a.ruleSharedState() })
 	a.Rule("flow/pooled-map-cleared", 1, func() { a.rulePooledMapsModule() })
 	a.Rule("flow/cache-stores-success-only", 4, func() { a.ruleCacheStoresSuccessOnly() })
+	a.Rule("tables/null-safe-predicates", 2, func() { a.ruleNullSafePredicates() })
 	a.Rule("shape/whole-call-slice", 1, func() { a.ruleWholeCallSlice("stream") })
 	a.Rule("fnsafe/slice-bound-overflow", 1, func() { a.ruleSliceBoundOverflow("functions") })
 	a.Rule("whomay/registry", 2, func() {
